@@ -626,6 +626,33 @@ def setTags (s : Sig) (c : Cfg) (k : Key) (ts : List Nat) : Except Err Cfg :=
       | .error e => .error e
       | .ok key => .ok (c2.log key (.tags (c2.tagsOf key)))
 
+/-- `delattr` loop of `update_callable(..., drop_invalid_args=True)`. -/
+def dropArgs (s : Sig) : Cfg → List String → Except Err Cfg
+  | c, [] => .ok c
+  | c, n :: r =>
+    match c.delAttr s n with
+    | .ok c' => dropArgs s c' r
+    | .error e => .error e
+
+/-- `mutate_buildable.update_callable(buildable, new_callable, drop_invalid_args)`: the state
+    part (the signature switch itself is the caller's). -/
+def updateCallable (newSig : Sig) (c : Cfg) (drop : Bool) : Except Err Cfg :=
+  if c.args.keys.any (fun k => match k with | .idx _ => true | .name _ => false) then
+    .error .typeError            -- NotImplementedError: positional arguments
+  else
+    let invalid : List String :=
+      if newSig.hasVk then []
+      else c.args.keys.filterMap (fun k => match k with
+        | .name n => if (newSig.find? n).isNone then some n else none
+        | .idx _ => none)
+    let r : Except Err Cfg :=
+      if invalid.isEmpty then .ok c
+      else if drop then dropArgs newSig c invalid
+      else .error .typeError
+    match r with
+    | .error e => .error e
+    | .ok c' => .ok (c'.log (.name "__fn_or_cls__") (.val (.v 0)))
+
 /-- `materialize_defaults` on one Buildable: every parameter that has a default and no stored
     value is set to its default (positional-only ones by index). -/
 def materializeLoop (s : Sig) : List Param → Nat → Cfg → Except Err Cfg
